@@ -23,6 +23,7 @@ from sa.terms import T
 from sa.pyfront import Program
 
 RULES = {
+    "R-C18-h": "aggregate constructors do not overwrite the caller's arrays (imported from the C17 frame analysis): NaN-seeding or zero-filling the caller's own array changes what every later computation over it - the other cube, a group-by, the next statistic - sees",
     "R-C18-g": "standard deviation: the sum of squared deviations is accumulated from deviations (x - mean)**2 (two-pass), not as sum(w*x*x) - mean*sum(w*x), whose subtraction cancels catastrophically for values that are large relative to their spread",
     "R-C18-a": "stddev: a cell with fewer than two valid rows is reported missing under both policies",
     "R-C18-b": "pair-format validity = ~(mask at which the sentinel is written), for every array-cube-only statistic",
@@ -370,6 +371,18 @@ def main(tier):
     rule_e(prog, rep)
     rule_f(prog, rep)
     rule_g(prog, rep)
+    import c17
+    sub17 = core.Report("C17", level="other", rules=c17.RULES, tier=tier)
+    st17 = {"events": 0, "mods": 0, "diagnostic": {}, "exceptions": {}, "regions": 0, "shortcuts": 0}
+    k17 = 0
+    for fi17, kind17 in c17.build_roots(prog):
+        if kind17 == "ctor" and fi17.module in ('xfuncs',) and not fi17.opaque:
+            c17.analyse_root(prog, fi17, kind17, sub17, st17)
+            k17 += 1
+    for o in sub17.obls:
+        if o.rule == "R-C17-a":
+            rep.add("R-C18-h", o.where, "[%s] %s" % (o.rule, o.construct), o.status, o.detail, True, o.witness)
+    rep.floor("R-C18-h", 5, k17)
     return rep.finish()
 
 
